@@ -157,6 +157,7 @@ type faultReader struct {
 	chunk    int
 	together bool // the last bytes are returned together with the error (allowed by io.Reader)
 	err      error // the error to fail with (errInjected when nil)
+	resume   []byte // after failing once the reader recovers and delivers these bytes, then io.EOF
 }
 
 func (r *faultReader) fault() error {
@@ -178,7 +179,11 @@ func (r *faultReader) Read(p []byte) (int, error) {
 			r.failed = true
 			return 0, r.fault()
 		}
-		return 0, io.EOF
+		if len(r.resume) > 0 {
+			r.data, r.resume = r.resume, nil
+		} else {
+			return 0, io.EOF
+		}
 	}
 	n := min(len(p), len(r.data))
 	if r.chunk > 0 {
